@@ -7,6 +7,8 @@ pub mod c01_lwe;
 pub mod c02;
 pub mod c19;
 pub mod c01_glwe;
+pub mod c03_ks;
+pub mod core_frame;
 pub mod c18_core;
 pub mod probe_be;
 pub mod probe_full;
